@@ -82,6 +82,9 @@ class Sym:
         return self.place(p, depth)
 
     def const(self, c):
+        if "enum" in c:
+            fs = tuple(("c", f["int"]) if f else ("c?", "?") for f in (c.get("fields") or []))
+            return ("agg", c["enum"], c["variant"], fs)
         if "int" in c:
             return ("c", c["int"])
         if "fn" in c:
